@@ -21,7 +21,7 @@ from vlib.runner import fail, must_succeed, quiet
 PROPERTY_ID = 'C17'
 LEVEL = 'exploration'
 DESIGN_REF = 'DESIGN.md section 3, C17'
-RULE = ('Hypothesis generates cube packages (1..6 models, 2..5 wavelength filters, 1..6 apertures, distance-dependent or '
+RULE = ('Hypothesis generates cube packages and per-file packages (SED files in seds/ or in sub-directories, plain or .gz; 1..6 models, 2..5 wavelength filters, 1..6 apertures, distance-dependent or '
         'not), per-filter angular apertures drawn from a small set (so that filters share apertures), sources planted near '
         'the models, 1..5 selected fits, a display mode from {interp, largest, largest+smallest, all} and the input form '
         '(object or file). One evaluation = one fit + one plot() call. Non-trivial = >= 2 selected fits and (multi-aperture '
@@ -66,11 +66,54 @@ def cases(draw):
         c['theta'] = [draw(st.sampled_from([1., 3., 3., 10.])) for _ in range(nf)]
     c['memmap'] = False
     c['apdep'] = apdep
+    # the package the fit was made from: a cube, or a per-file package (convolved files at the filter wavelengths + one SED
+    # file per model, directly in seds/ or in sub-directories, plain or gzip-compressed)
+    c['pkg'] = draw(st.sampled_from(['cube', 'cube', 'perfile']))
+    c['sed_layout'] = draw(st.sampled_from(['flat', 'gz', 'sub', 'sub_gz']))
+    c['sed_storage'] = draw(st.sampled_from(['asc', 'desc']))
+    if c['pkg'] == 'perfile':
+        c['format'] = 'v1'
+        c['ap_count_by_filter'] = None
+        if any(len(x) > 30 for x in c['grid']['names']):
+            # convolved-flux files hold 30-character names: longer ones only exist in cube packages
+            c['grid']['names'] = ['m%03d_%s' % (i, x[-8:]) for i, x in enumerate(c['grid']['names'])]
     c['sed_type'] = draw(st.sampled_from(['interp', 'largest', 'largest+smallest', 'all']))
     c['nsel'] = draw(st.integers(1, 5))
     c['input'] = draw(st.sampled_from(['object', 'file']))
+    # the result may have been ranked again by the caller (FitInfo.sort() is public, e.g. after adding a prior to chi2)
+    c['resort'] = draw(st.integers(0, 2)) == 0
     c['av_range'] = draw(st.sampled_from([[0., 10.], [0., 0.5], [1., 1.], [-1., 30.]]))
     return c
+
+
+def write_sed_files(mdir, case, apdep):
+    """one SED file per model on the wavelengths of the filters (the per-file counterpart of the cube of build_package_*)"""
+    from vlib import pkgio
+    names = case['grid']['names']
+    filters = case['filters']
+    order = sorted(range(len(filters)), key=lambda j: filters[j]['wav'])
+    if case.get('sed_storage') == 'desc':
+        order = order[::-1]
+    wav = [filters[j]['wav'] for j in order]
+    layout = case.get('sed_layout', 'flat')
+    sub = 3 if layout.startswith('sub') else 0
+    pkgio.write_conf(mdir, apdep, case['setup']['step'] if apdep else 0.02, version=None, length_subdir=sub)
+    os.mkdir(os.path.join(mdir, 'seds'))
+    for m, name in enumerate(names):
+        if apdep:
+            aps = case['grid']['apertures']
+            flux = [[case['grid']['flux'][m][j][a] for j in order] for a in range(len(aps))]
+        else:
+            aps = None
+            flux = [[10. ** case['grid']['logflux'][m][j] for j in order]]
+        err = [[0.05 * v for v in row] for row in flux]
+        sdir = os.path.join(mdir, 'seds')
+        if sub:
+            sdir = os.path.join(sdir, name[:sub])
+            if not os.path.isdir(sdir):
+                os.mkdir(sdir)
+        pkgio.write_sed_file(os.path.join(sdir, name + '_sed.fits' + ('.gz' if layout.endswith('gz') else '')), name, wav,
+                             pkgio.wav_to_nu(wav), aps, flux, err, distance_cm=3.0856775814913674e21)
 
 
 def run_case(case, ctx):
@@ -98,12 +141,21 @@ def run_case(case, ctx):
             gen.build_package_2d(mdir, case)
             dr = None
             aps = None
+        if case.get('pkg') == 'perfile':
+            write_sed_files(mdir, case, apdep)
+            labels.add('per_file_package_' + case.get('sed_layout', 'flat'))
+        else:
+            labels.add('cube_package')
         with must_succeed('Fitter()'), quiet():
             fitter = gen.make_fitter(mdir, case, case['av_range'], distance_range=dr)
         with must_succeed('Fitter.fit'), quiet():
             info = fitter.fit(gen.source_object(src))
         if not np.all(np.isfinite(info.chi2)) or not np.all(np.isfinite(info.av)):
             return labels | {'singular_fit_skipped'}, False
+        if case.get('resort'):
+            with must_succeed('FitInfo.sort() on a fit result'):
+                info.sort()
+            labels.add('result_sorted_again')
         nsel = min(case['nsel'], len(names))
         sel = ('N', nsel)
         # what the fit stores
